@@ -1243,7 +1243,7 @@ pub fn run_c17(case: &C17Case, cut: usize, o: &mut Outcome) -> Option<Failure> {
 /// Maximum. `steps` run on connection 1 under Receive Maximum `r1`; the connection is lost, the
 /// session resumed (or expired) under Receive Maximum `r2`; then new publishes are attempted until
 /// one is refused, everything is acknowledged, and the full quota must be back.
-pub fn run_c10_resume(steps: &[Step], r1: u16, r2: u16, expired: bool, o: &mut Outcome) -> Option<Failure> {
+pub fn run_c10_resume(steps: &[Step], r1: u16, r2: u16, expired: bool, lost_in_publish: Option<u8>, o: &mut Outcome) -> Option<Failure> {
     let plan = WritePlan::default();
     let e = if expired { 0 } else { u32::MAX };
     let spec = ConnectSpec { session_expiry: Some(e), client_id: Some("c10r".into()), ..Default::default() };
@@ -1293,8 +1293,20 @@ pub fn run_c10_resume(steps: &[Step], r1: u16, r2: u16, expired: bool, o: &mut O
     let unacked = exs.iter().filter(|e| e.ph == Ph::AwaitAck).count();
     let between = exs.iter().filter(|e| e.ph == Ph::AwaitComp).count();
     w.tick();
-    w.reader.set_eof();
-    settle(&mut w, &plan, false);
+    match lost_in_publish {
+        // the connection dies k bytes into the write of one more QoS 1 PUBLISH: that publish never
+        // became part of the session (its caller gets an error) and must not occupy a slot later
+        Some(k) if (exs.iter().filter(|e| e.ph != Ph::Done).count() as u16) < r1 => {
+            w.writer.set_fault(crate::mockio::WriteFault::ErrAt(w.wire_len() + k as usize));
+            let _ = publish(&mut w, "c10r/torn".into(), 1);
+            settle(&mut w, &plan, false);
+            o.class("resume/connection-lost-inside-a-publish-write");
+        }
+        _ => {
+            w.reader.set_eof();
+            settle(&mut w, &plan, false);
+        }
+    }
     if w.run_result != Some(RunRes::Err(ErrSum::SocketClosed)) {
         return None; // C13 / C17 judge this
     }
